@@ -42,6 +42,7 @@ type vc06MTx struct {
 	prevs   []vc06Ref
 	payload vc06Ref
 	data    []byte
+	content [32]byte // identity of the signed content (header bytes, payload, signature), see vc06Content
 }
 
 // vc06Env is the environment the stub key resolver and the model share: which public key a key id denotes
@@ -113,13 +114,14 @@ type vc06Sub struct {
 type vc06Model struct {
 	txs      map[vc06Ref]*vc06MTx
 	payloads map[vc06Ref][]byte
-	notified []string // "subscriber|ref|type" in admission order
+	contents map[[32]byte]vc06Ref // signed content -> the transaction that carries it
+	notified []string             // "subscriber|ref|type" in admission order
 	env      *vc06Env
 	subs     []vc06Sub
 }
 
 func vc06NewModel(env *vc06Env, subs []vc06Sub) *vc06Model {
-	return &vc06Model{txs: map[vc06Ref]*vc06MTx{}, payloads: map[vc06Ref][]byte{}, env: env, subs: subs}
+	return &vc06Model{txs: map[vc06Ref]*vc06MTx{}, payloads: map[vc06Ref][]byte{}, contents: map[[32]byte]vc06Ref{}, env: env, subs: subs}
 }
 
 func (m *vc06Model) clone() *vc06Model {
@@ -129,6 +131,9 @@ func (m *vc06Model) clone() *vc06Model {
 	}
 	for k, v := range m.payloads {
 		c.payloads[k] = v
+	}
+	for k, v := range m.contents {
+		c.contents[k] = v
 	}
 	c.notified = append([]string{}, m.notified...)
 	return c
@@ -155,6 +160,7 @@ type vc06Verdict struct {
 // ---------------------------------------------------------------- JWS reader
 
 type vc06Interp struct {
+	hdrBytes  []byte // decoded protected header, as signed
 	protected map[string]json.RawMessage
 	payload   []byte // decoded JWS payload
 	sig       []byte
@@ -259,7 +265,7 @@ func vc06One(protSeg, paySeg, sigSeg string, extraNotes []string) ([]vc06Interp,
 			pays = append(pays, pv{[]byte(paySeg), "b64-unencoded-payload"})
 		}
 		for _, p := range pays {
-			in := vc06Interp{protected: v, payload: p.b, sig: sig, notes: append([]string{}, notes...)}
+			in := vc06Interp{hdrBytes: hb, protected: v, payload: p.b, sig: sig, notes: append([]string{}, notes...)}
 			if p.note != "" {
 				in.notes = append(in.notes, p.note)
 			}
@@ -635,6 +641,20 @@ func (m *vc06Model) check(in vc06Interp, ref vc06Ref, data []byte, payload []byt
 }
 
 // offer is B.1's offer(); apply=false only asks for the verdict.
+// vc06Content identifies a transaction by its SIGNED CONTENT: the protected header bytes as signed, the JWS payload and the
+// signature bytes — whatever the serialisation that carries them.
+func vc06Content(in vc06Interp) [32]byte {
+	h := sha256.New()
+	h.Write(in.hdrBytes)
+	h.Write([]byte{0})
+	h.Write(in.payload)
+	h.Write([]byte{0})
+	h.Write(in.sig)
+	var k [32]byte
+	copy(k[:], h.Sum(nil))
+	return k
+}
+
 func (m *vc06Model) offer(b []byte, payload []byte, hasPayload bool, apply bool) vc06Verdict {
 	ref := sha256.Sum256(b)
 	if _, ok := m.txs[ref]; ok {
@@ -644,10 +664,18 @@ func (m *vc06Model) offer(b []byte, payload []byte, hasPayload bool, apply bool)
 	if why != "" {
 		return vc06Verdict{Clause: why}
 	}
+	// "exactly once": a byte-different serialisation of the signed content of a transaction that is already present is a
+	// re-submission of that transaction; it must not enter the DAG as another one
+	for _, in := range interps {
+		if other, ok := m.contents[vc06Content(in)]; ok && other != ref {
+			return vc06Verdict{Clause: "re-encoding-of-present-transaction"}
+		}
+	}
 	first := ""
 	for _, in := range interps {
 		clause, tx, notes := m.check(in, ref, b, payload, hasPayload)
 		if clause == "" {
+			tx.content = vc06Content(in)
 			if apply {
 				m.admit(tx, payload, hasPayload)
 			}
@@ -662,6 +690,9 @@ func (m *vc06Model) offer(b []byte, payload []byte, hasPayload bool, apply bool)
 
 func (m *vc06Model) admit(tx *vc06MTx, payload []byte, hasPayload bool) {
 	m.txs[tx.ref] = tx
+	if _, ok := m.contents[tx.content]; !ok {
+		m.contents[tx.content] = tx.ref
+	}
 	if hasPayload {
 		m.payloads[tx.payload] = payload
 	}
